@@ -393,6 +393,9 @@ def check(model, tier):
     optional_rules.r_optional_truthiness(ctx, "R01.12", None, ("iteration/", "_operations/", "_relation.py", "_unary_operation.py"))
     from ..rules import purity
 
-    purity.r_engine_stateless(ctx, "R01.13", IT_ENGINE, ("execute", "convert_column_expression", "convert_predicate", "append_unary", "append_binary"))
+    purity.r_engine_stateless(ctx, "R01.14", IT_ENGINE, ("execute", "convert_column_expression", "convert_predicate", "append_unary", "append_binary"))
     run.assume("max_rows == 0 / is_join_identity short-circuits rely on truthful bounds (C06)")
+    from ..rules import bounds as _bounds
+
+    _bounds.r06_7_bound_formulas(ctx, rule="R01.15")
     return run
